@@ -30,6 +30,14 @@ def make_test(engine, program, sig):
 
 def minimize(engine, program, violation, budget=400, extra_passes=None):
     sig = _sig(violation)
+    original = program
+    if hasattr(engine, "strip"):
+        # recorded schedules are meaningless for shortened programs: candidates
+        # run with the seed-driven (still deterministic) schedule instead
+        stripped = engine.strip(program)
+        f0, _ = make_test(engine, stripped, sig)
+        if f0(copy.deepcopy(program["steps"])):
+            program = stripped
     steps = copy.deepcopy(program["steps"])
     fails, calls = make_test(engine, program, sig)
     if not fails(steps):
@@ -85,6 +93,12 @@ def minimize(engine, program, violation, budget=400, extra_passes=None):
         for p in extra_passes:
             steps = p(steps, fails, calls, budget)
     out = dict(program, steps=steps)
-    out["minimised_from"] = len(program["steps"])
+    if hasattr(engine, "seal") and program is not original:
+        sealed, o = engine.seal(out)
+        if _sig(o.violation) == sig:
+            out = sealed
+        else:
+            return None
+    out["minimised_from"] = len(original["steps"])
     out["minimise_calls"] = calls[0]
     return out
